@@ -27,6 +27,9 @@ NAME_CLASSES = {
     "name:control": ["tab\there", "nl\nhere", "bell\x07"],
     "name:long200": ["L" + "o" * 198 + "g"],
     "name:afm-word": ["Q", "Abc123", "XyZ", "A1b2C3", "Zzzzzzzzzzzzzzzzzzzz"],
+    "name:unicode-digit": ["Zone\u0663", "v\uff12_beta", "tier\u0967", "X\u0661\u0662"],
+    "name:line-separators": ["a\u2028b", "x\u2029y", "n\u0085m"],
+    "name:numeric-looking": ["2024", "1e3", "Infinity", "NaN", "1_000", "10", "inf", "0x1F", "-5"],
 }
 UVL_KEYWORDS = ["features", "mandatory", "optional", "or", "alternative", "constraints", "cardinality", "Boolean",
                 "Integer", "Real", "String", "sum", "avg", "len", "floor", "ceil", "namespace", "imports", "include",
@@ -182,13 +185,85 @@ def inj_many_ctcs(ops, n=(41, 70)):
 
 
 def inj_deep_chain(spec, r):
-    """A chain of 12-20 nested one-child relations below a leaf (depth threshold)."""
+    """A chain of 12-20 (sometimes 33-45) nested one-child relations below a leaf (depth thresholds)."""
     leaves = [f for f in _feats(spec) if not f["rels"]]
     cur = r.choice(leaves)
-    for n in _fresh(spec, r, r.randint(12, 20)):
+    for n in _fresh(spec, r, r.randint(12, 20) if r.random() < 0.6 else r.randint(33, 45)):
         nxt = {"name": n, "rels": []}
         cur["rels"].append({"min": r.choice([0, 1]), "max": 1, "children": [nxt]})
         cur = nxt
+    return spec
+
+
+def inj_ctc_chain(ops=("AND", "OR"), n=(7, 20)):
+    """One constraint that is a chain of 7-20 operands of one associative operator, nested in a random shape
+    (left, right or balanced), possibly below another operator."""
+    def f(spec, r):
+        names = S.feature_names(spec)
+        k = r.randint(*n)
+        xs = [r.choice(names) if r.random() < 0.2 else names[j % len(names)] for j in range(k)]
+        r.shuffle(xs)
+        op = r.choice(ops)
+
+        def build(lst):
+            if len(lst) == 1:
+                return lst[0]
+            shape = r.random()
+            cut = 1 if shape < 0.35 else len(lst) - 1 if shape < 0.7 else len(lst) // 2
+            return [op, build(lst[:cut]), build(lst[cut:])]
+        t = build(xs)
+        if r.random() < 0.3:
+            t = ["IMPLIES", r.choice(names), t]
+        return _add_ctc(spec, t)
+    return f
+
+
+def inj_ctc_wide(ops=("AND", "OR", "IMPLIES")):
+    """One constraint over 11-15 distinct features."""
+    def f(spec, r):
+        names = S.feature_names(spec)
+        if len(names) < 11:
+            return None
+        xs = r.sample(names, r.randint(11, min(15, len(names))))
+        t = xs[0]
+        for x in xs[1:]:
+            t = [r.choice(ops), t, x] if r.random() < 0.6 else [r.choice(ops), x, t]
+        return _add_ctc(spec, t)
+    return f
+
+
+def inj_dash_twin(spec, r):
+    """Two features named X and -X, both used in one constraint."""
+    feats = _feats(spec)
+    if len(feats) < 3:
+        return None
+    a, b = r.sample(feats[1:], 2)
+    twin = "-" + a["name"]
+    if twin in S.feature_names(spec):
+        return None
+    old = b["name"]
+    b["name"] = twin
+    for c in spec["ctcs"]:
+        c["ast"] = _subst(c["ast"], old, twin)
+    other = feats[0]["name"]
+    return _add_ctc(spec, ["AND", ["IMPLIES", a["name"], other], ["OR", twin, other]])
+
+
+def inj_dup_ctc(spec, r):
+    """The same constraint stated twice (plus a different one): multiplicities matter."""
+    a, b = _two(spec, r)
+    _add_ctc(spec, ["REQUIRES", a, b])
+    _add_ctc(spec, ["REQUIRES", a, b])
+    _add_ctc(spec, ["EXCLUDES", b, a])
+    return spec
+
+
+def inj_afm_attr_strings(spec, r):
+    feat = r.choice(_feats(spec))
+    vals = ['"locker box"', '"a b c"', '"plain"', '"two  blanks"'] + [f'"value number {k}"' for k in range(r.randint(0, 12))]
+    dom = {"ranges": [], "elements": vals}
+    feat.setdefault("attrs", []).append({"name": "label" + str(len(feat.get("attrs", []))), "domain": dom,
+                                         "default": vals[0], "null": vals[2]})
     return spec
 
 
